@@ -25,6 +25,7 @@ LEVEL_NOTE = c01.LEVEL_NOTE
 RULE = ("one run = 1-4 == sites whose value is a str / bytes as whole snapshot, list / tuple element, dict key, dict value, [key] child, constructor argument; "
         "formatter state in {black, absent, raising, cmd:black(line length 20-120, string normalisation on/off), cmd:requote, cmd:identity}; distinct = "
         "(string feature class, placement, formatter state); non-trivial = a string with a quote, backslash, control or non-ASCII character or a line end")
+RULE += " Dimensions added while testing against seeded changes: locale encoding of the session (cp1252 / ascii / latin-1 / iso8859-15) for format-command runs through a fake subprocess that is faithful to text-mode pipes; CRLF projects; fix of existing literals."
 ASSUMPTIONS = c01.ASSUMPTIONS[:2]
 REAL_VS_STUB = c01.REAL_VS_STUB
 EXHAUSTIVE = {"quick": False, "thorough": False}
